@@ -52,7 +52,9 @@ def run(chk):
     codec.check_inplace(chk, "C01", 200 if chk.tier == "quick" else 3000)
     codec.check_layouts(chk, "C01", 240 if chk.tier == "quick" else 3000)
     codec.check_trimmed(chk, "C01", 96 if chk.tier == "quick" else 1200)
+    codec.check_partial_gaps(chk, "C01", 45 if chk.tier == "quick" else 600)
     codec.check_stray_attributes(chk, "C01", 30 if chk.tier == "quick" else 400)
+    codec.check_reassigned_arrays(chk, "C01", 60 if chk.tier == "quick" else 800)
     if chk.tier == "thorough":
         # every mask n<=8 on each run-length coded kind (single-track blocks)
         from harness.c05 import mask_cases
